@@ -26,15 +26,17 @@ EXTENDS Naturals, Sequences, FiniteSets, TLC, Json
 
 CONSTANTS MaxCbs, MaxEnq, MaxInv, Ops, CbShapes, ArgShapes, PredShapes, Counts
 Protos == 1..5
-Binds == <<1, 2, 3, 4, 5, 2, 1>>                 \* shapes 1..5: exact; 6: callable with (int) and (int,const TS&); 7: callable with anything
+Binds == <<1, 2, 3, 4, 5, 2, 1, 2>>              \* shapes 1..5: exact; 6: callable with (int) and (int,const TS&); 7: callable with anything;
+                                                 \* 8: void(int) that enqueues one more (int) event per call (at most MaxListenerEnq per script)
+MaxListenerEnq == 3
 Accepts == <<1, 2, 2, 3, 4, 5, 2>>               \* (), (int), (long), (TS), (Big), (int,TS), (char)
 Callable == <<{1}, {2}, {3}, {4}, {5}, {2, 5}>>   \* predicates: bool(), bool(int), bool(const TS&), bool(const Big&), bool(int,const TS&), generic {(int), (int,const TS&)}
 
-VARIABLES lst, kind, pending, ncb, nuid, ninv, consumed, hist
-vars == <<lst, kind, pending, ncb, nuid, ninv, consumed, hist>>
-View == <<lst, kind, pending, ncb, nuid, ninv, consumed>>
+VARIABLES lst, kind, pending, ncb, nuid, ninv, consumed, nle, hist
+vars == <<lst, kind, pending, ncb, nuid, ninv, consumed, nle, hist>>
+View == <<lst, kind, pending, ncb, nuid, ninv, consumed, nle>>
 
-Init == lst = [p \in Protos |-> <<>>] /\ kind = <<>> /\ pending = <<>> /\ ncb = 0 /\ nuid = 0 /\ ninv = 0 /\ consumed = {} /\ hist = <<>>
+Init == lst = [p \in Protos |-> <<>>] /\ kind = <<>> /\ pending = <<>> /\ ncb = 0 /\ nuid = 0 /\ ninv = 0 /\ consumed = {} /\ nle = 0 /\ hist = <<>>
 H(op, a, b) == hist' = Append(hist, <<op, a, b>>)
 InSeq(s, x) == \E i \in 1..Len(s) : s[i] = x
 Pos(s, x) == CHOOSE i \in 1..Len(s) : s[i] = x
@@ -42,19 +44,24 @@ Without(s, x) == SelectSeq(s, LAMBDA y : y # x)
 ProtoOf(h) == IF \E p \in Protos : InSeq(lst[p], h) THEN CHOOSE p \in Protos : InSeq(lst[p], h) ELSE 0
 
 Plain == [k |-> "plain", left |-> 0]
+PlainOf(k) == IF k = 8 THEN [k |-> "enq", left |-> 0] ELSE Plain
 Ctr(c) == [k |-> "ctr", left |-> IF c < 1 THEN 1 ELSE c]
 Cond == [k |-> "cond", left |-> 2]
 Before(s, h, n) == IF InSeq(s, h) THEN SubSeq(s, 1, Pos(s, h) - 1) \o <<n>> \o SubSeq(s, Pos(s, h), Len(s)) ELSE Append(s, n)
 \* one trigger of prototype p: every self-removing listener of that list counts down and detaches itself when it reaches zero
-Trig(p, ls, kd) == LET S == {n \in 1..Len(kd) : InSeq(ls[p], n) /\ kd[n].k # "plain"} IN
+Trig(p, ls, kd) == LET S == {n \in 1..Len(kd) : InSeq(ls[p], n) /\ kd[n].k \in {"ctr", "cond"}} IN
                    [ls |-> [ls EXCEPT ![p] = SelectSeq(@, LAMBDA x : x \notin S \/ kd[x].left > 1)],
                     kd |-> [n \in 1..Len(kd) |-> IF n \in S THEN [kd[n] EXCEPT !.left = @ - 1] ELSE kd[n]]]
-RECURSIVE TrigAll(_,_,_)
-TrigAll(ps, ls, kd) == IF ps = <<>> THEN [ls |-> ls, kd |-> kd] ELSE LET t == Trig(Head(ps), ls, kd) IN TrigAll(Tail(ps), t.ls, t.kd)
+\* enqueuing listeners of prototype p add one event each per trigger (while the script's budget lasts)
+Enqueuers(p, ls, kd) == Cardinality({n \in 1..Len(kd) : InSeq(ls[p], n) /\ kd[n].k = "enq"})
+Min(a, b) == IF a < b THEN a ELSE b
+RECURSIVE TrigAll(_,_,_,_)
+TrigAll(ps, ls, kd, ne) == IF ps = <<>> THEN [ls |-> ls, kd |-> kd, ne |-> ne]
+                           ELSE LET t == Trig(Head(ps), ls, kd) IN TrigAll(Tail(ps), t.ls, t.kd, Min(MaxListenerEnq, ne + Enqueuers(Head(ps), ls, kd)))
 AddNode(op, p, newseq, kd) == /\ op \in Ops /\ ncb < MaxCbs /\ lst' = [lst EXCEPT ![p] = newseq] /\ kind' = Append(kind, kd) /\ ncb' = ncb + 1
-                              /\ UNCHANGED <<pending, nuid, ninv, consumed>>
-OpAppend(k) == AddNode("al", Binds[k], Append(lst[Binds[k]], ncb + 1), Plain) /\ H("al", k, 0)
-OpPrepend(k) == AddNode("pl", Binds[k], <<ncb + 1>> \o lst[Binds[k]], Plain) /\ H("pl", k, 0)
+                              /\ UNCHANGED <<pending, nuid, ninv, consumed, nle>>
+OpAppend(k) == AddNode("al", Binds[k], Append(lst[Binds[k]], ncb + 1), PlainOf(k)) /\ H("al", k, 0)
+OpPrepend(k) == AddNode("pl", Binds[k], <<ncb + 1>> \o lst[Binds[k]], PlainOf(k)) /\ H("pl", k, 0)
 \* CounterRemover: append / prepend / insert-before forms; script items ac [k, c], pc [k, c], ic [k + 10h, c]
 OpAppendCtr(k, c) == AddNode("ac", Binds[k], Append(lst[Binds[k]], ncb + 1), Ctr(c)) /\ H("ac", k, c)
 OpPrependCtr(k, c) == AddNode("pc", Binds[k], <<ncb + 1>> \o lst[Binds[k]], Ctr(c)) /\ H("pc", k, c)
@@ -64,21 +71,24 @@ OpAppendCond == AddNode("ak", 1, Append(lst[1], ncb + 1), Cond) /\ H("ak", 0, 0)
 OpPrependCond == AddNode("qk", 1, <<ncb + 1>> \o lst[1], Cond) /\ H("qk", 0, 0)
 OpInsertCond(h) == h \in 0..ncb /\ AddNode("ik", 1, Before(lst[1], h, ncb + 1), Cond) /\ H("ik", 0, h)
 \* insert before handle h: immediately before it when h is a live callback of the SAME prototype, else at the back of its own prototype's list
-OpInsert(k, h) == /\ h \in 1..ncb /\ AddNode("il", Binds[k], Before(lst[Binds[k]], h, ncb + 1), Plain) /\ H("il", k, h)
+OpInsert(k, h) == /\ h \in 1..ncb /\ AddNode("il", Binds[k], Before(lst[Binds[k]], h, ncb + 1), PlainOf(k)) /\ H("il", k, h)
 OpRemove(h) == /\ "rl" \in Ops /\ h \in 1..ncb /\ lst' = [p \in Protos |-> Without(lst[p], h)]
-               /\ UNCHANGED <<kind, pending, ncb, nuid, ninv, consumed>> /\ H("rl", h, 0)
+               /\ UNCHANGED <<kind, pending, ncb, nuid, ninv, consumed, nle>> /\ H("rl", h, 0)
 ProtosOf(evs) == [i \in 1..Len(evs) |-> evs[i].p]
-Fire(ps) == LET t == TrigAll(ps, lst, kind) IN lst' = t.ls /\ kind' = t.kd
-OpInvoke(a) == /\ "iv" \in Ops /\ ninv < MaxInv /\ ninv' = ninv + 1 /\ Fire(<<Accepts[a]>>)
-               /\ UNCHANGED <<pending, ncb, nuid, consumed>> /\ H("iv", a, 0)
+\* the triggers ps happen one after the other; what stays queued is `rest`, the events enqueued by listeners go behind it
+Fire(ps, rest) == LET t == TrigAll(ps, lst, kind, nle)  new == t.ne - nle IN
+                  /\ lst' = t.ls /\ kind' = t.kd /\ nle' = t.ne /\ nuid' = nuid + new
+                  /\ pending' = rest \o [i \in 1..new |-> [uid |-> nuid + i, p |-> 2]]
+OpInvoke(a) == /\ "iv" \in Ops /\ ninv < MaxInv /\ ninv' = ninv + 1 /\ Fire(<<Accepts[a]>>, pending)
+               /\ UNCHANGED <<ncb, consumed>> /\ H("iv", a, 0)
 OpEnqueue(a) == /\ "nq" \in Ops /\ nuid < MaxEnq /\ pending' = Append(pending, [uid |-> nuid + 1, p |-> Accepts[a]]) /\ nuid' = nuid + 1
-                /\ UNCHANGED <<lst, kind, ncb, ninv, consumed>> /\ H("nq", a, 0)
-OpProcess == /\ "pa" \in Ops /\ consumed' = consumed \cup {pending[i].uid : i \in 1..Len(pending)} /\ pending' = <<>> /\ Fire(ProtosOf(pending))
-             /\ UNCHANGED <<ncb, nuid, ninv>> /\ H("pa", 0, 0)
+                /\ UNCHANGED <<lst, kind, ncb, ninv, consumed, nle>> /\ H("nq", a, 0)
+OpProcess == /\ "pa" \in Ops /\ consumed' = consumed \cup {pending[i].uid : i \in 1..Len(pending)} /\ Fire(ProtosOf(pending), <<>>)
+             /\ UNCHANGED <<ncb, ninv>> /\ H("pa", 0, 0)
 OpProcessOne == /\ "po" \in Ops
-                /\ IF pending = <<>> THEN UNCHANGED <<pending, consumed, lst, kind>>
-                   ELSE pending' = Tail(pending) /\ consumed' = consumed \cup {Head(pending).uid} /\ Fire(<<Head(pending).p>>)
-                /\ UNCHANGED <<ncb, nuid, ninv>> /\ H("po", 0, 0)
+                /\ IF pending = <<>> THEN UNCHANGED <<pending, consumed, lst, kind, nuid, nle>>
+                   ELSE consumed' = consumed \cup {Head(pending).uid} /\ Fire(<<Head(pending).p>>, Tail(pending))
+                /\ UNCHANGED <<ncb, ninv>> /\ H("po", 0, 0)
 \* processIf with a predicate of shape s whose verdict is "uid is odd": the code runs one pass per callable prototype in list order and
 \* returns after the first pass that dispatched something
 RECURSIVE Passes(_,_)
@@ -90,10 +100,10 @@ SortedSeq(S) == LET RECURSIVE F(_)
                     F(T) == IF T = {} THEN <<>> ELSE LET m == CHOOSE x \in T : \A y \in T : x <= y IN <<m>> \o F(T \ {m})
                 IN F(S)
 OpProcessIf(s) == /\ "pi" \in Ops
-                  /\ pending' = Passes(SortedSeq(Callable[s]), pending)
-                  /\ consumed' = consumed \cup ({pending[i].uid : i \in 1..Len(pending)} \ {pending'[i].uid : i \in 1..Len(pending')})
-                  /\ Fire(ProtosOf(SelectSeq(pending, LAMBDA e : \A i \in 1..Len(pending') : pending'[i].uid # e.uid)))
-                  /\ UNCHANGED <<ncb, nuid, ninv>> /\ H("pi", s, 0)
+                  /\ LET rest == Passes(SortedSeq(Callable[s]), pending) IN
+                     /\ consumed' = consumed \cup ({pending[i].uid : i \in 1..Len(pending)} \ {rest[i].uid : i \in 1..Len(rest)})
+                     /\ Fire(ProtosOf(SelectSeq(pending, LAMBDA e : \A i \in 1..Len(rest) : rest[i].uid # e.uid)), rest)
+                  /\ UNCHANGED <<ncb, ninv>> /\ H("pi", s, 0)
 
 Next == \/ \E k \in CbShapes : OpAppend(k) \/ OpPrepend(k) \/ \E h \in 1..MaxCbs : OpInsert(k, h)
         \/ \E k \in CbShapes, c \in Counts : OpAppendCtr(k, c) \/ OpPrependCtr(k, c) \/ \E h \in 0..MaxCbs : OpInsertCtr(k, h, c)
